@@ -486,6 +486,53 @@ func scenarios(thorough bool) []scenario {
 		tr.add("after reset: %s %s %s", render(t.VarNode), render(t.VarAny), render(t.ReadVarHidden()))
 	})
 
+	// ---- a variable of func type: fake, switched off (typed nil), callback ----
+	add("Var/func-typed", func(tr *transcript) {
+		b := mocker.Create()
+		b.Var(&t.VarHook).Set(func(name string) string { return "fake:" + name })
+		tr.do("Emit(a)", func() string { return t.Emit("a") })
+		b.Var(&t.VarHook).Set((func(string) string)(nil))
+		tr.add("hook==nil: %v", t.VarHook == nil)
+		tr.do("Emit(b)", func() string { return t.Emit("b") })
+		b.Var(&t.VarHook).Apply(func() func(string) string { return func(name string) string { return "applied:" + name } })
+		tr.do("Emit(c)", func() string { return t.Emit("c") })
+		b.Var(&t.VarHook).Apply(func() func(string) string { return nil })
+		tr.add("hook==nil: %v", t.VarHook == nil)
+		tr.do("Emit(d)", func() string { return t.Emit("d") })
+		b.Reset()
+		tr.do("Emit(e) after reset", func() string { return t.Emit("e") })
+	})
+
+	// ---- arguments and results whose String()/Error() call a function that is mocked too ----
+	for mi, mock := range []string{"apply", "return", "when"} {
+		mock := mock
+		add(fmt.Sprintf("Nested/%d-%s", mi, mock), func(tr *transcript) {
+			b := mocker.Create()
+			defer b.Reset()
+			b.Func(t.SkuName).Apply(func(id int) string { return fmt.Sprintf("mock-sku-%d", id) })
+			switch mock {
+			case "apply":
+				b.Func(t.Submit).Apply(func(o t.Order) int { tr.add("  cb Submit(sku=%d)", o.Sku); return o.Sku + 100 })
+				b.Func(t.Validate).Apply(func(id int) error { tr.add("  cb Validate(%d)", id); return &t.SkuErr{Code: id} })
+			case "return":
+				b.Func(t.Submit).Return(105)
+				b.Func(t.Validate).Return(&t.SkuErr{Code: 7})
+			case "when":
+				b.Func(t.Submit).Return(1).When(t.Order{Sku: 5}).Return(2)
+				b.Func(t.Validate).Return(nil).When(1).Return(&t.SkuErr{Code: 8})
+			}
+			tr.do("Submit(order 5)", func() string { return fmt.Sprint(t.Submit(t.Order{Sku: 5})) })
+			tr.do("Submit(order 6)", func() string { return fmt.Sprint(t.Submit(t.Order{Sku: 6})) })
+			tr.do("Validate(1)", func() string {
+				if err := t.Validate(1); err != nil {
+					return err.Error()
+				}
+				return "<nil>"
+			})
+			tr.do("String() while mocked", func() string { return t.Order{Sku: 9}.String() })
+		})
+	}
+
 	// ---- fixed-size byte arrays by value (digests, raw ids) next to a byte slice ----
 	idA := [16]byte{1, 2, 3, 4, 5, 6, 7, 8, 9, 10, 11, 12, 13, 14, 15, 16}
 	for mi, mock := range []string{"apply", "return", "when"} {
